@@ -304,6 +304,12 @@ def final_density_matrix(
             deferred = measurement_transformers.defer_measurements(noise_applied)
             dephased = measurement_transformers.dephase_measurements(deferred)
             program = dephased
+            # The ancilla qubits added by the deferral come after the qubits of the given order.
+            circuit_qubits = ops.QubitOrder.as_qubit_order(qubit_order).order_for(
+                circuit_like.all_qubits()
+            )
+            ancillas = sorted(dephased.all_qubits().difference(circuit_qubits))
+            qubit_order = [*circuit_qubits, *ancillas]
         elif ignore_measurement_results:
             # case 2: no classical control, only terminal measurement
             program = measurement_transformers.dephase_measurements(circuit_like)
@@ -323,11 +329,11 @@ def final_density_matrix(
 
         if handling_classical_control:
             # assuming that the ancilla qubits from the transformations are at the end
-            keep = list(range(protocols.num_qubits(circuit_like)))
-            dephased_qid_shape = protocols.qid_shape(dephased)
+            keep = list(range(len(circuit_qubits)))
+            dephased_qid_shape = tuple(q.dimension for q in qubit_order)
             tensor_form = np.reshape(result, dephased_qid_shape + dephased_qid_shape)
             reduced_form = transformations.partial_trace(tensor_form, keep)
-            width = np.prod(protocols.qid_shape(circuit_like))
+            width = np.prod([q.dimension for q in circuit_qubits], dtype=np.int64)
             result = np.reshape(reduced_form, (width, width))
 
         return result
